@@ -47,12 +47,18 @@ def build(n, edges, order, mode, unknown, skip_nb):
         objs = list(range(n))
         g = DiGraph(make_hashable=None)
         key = lambda o: o  # noqa: E731
+    elif mode == "nan":
+        # hashable mode with nodes whose equality is not reflexive (float nan): sets and dicts find them by
+        # identity, so the algorithm must too
+        objs = [float("nan") for _ in range(n)]
+        g = DiGraph(make_hashable=None)
+        key = id
     else:
         objs = [(EqObj if mode == "eq" else Obj)(i) for i in range(n)]
         g = DiGraph()
         key = id
     g.add_nodes([objs[i] for i in order])
-    extra = n + 100 if mode == "int" else (EqObj(-1) if mode == "eq" else Obj(-1))
+    extra = n + 100 if mode == "int" else (float("nan") if mode == "nan" else (EqObj(-1) if mode == "eq" else Obj(-1)))
     for a in order:
         nb = [objs[b] for (x, b) in sorted(edges) if x == a]
         if not nb and a in skip_nb:
@@ -69,10 +75,13 @@ def build(n, edges, order, mode, unknown, skip_nb):
 
 def observe(g, objs, key, trivial):
     tr = {key(o): i for i, o in enumerate(objs)}
-    order = [tr[t] for t in list(g._nodes.copy())]
+    # internal node keys: the objects themselves in hashable mode (looked up by identity when their equality is
+    # not reflexive), id() numbers otherwise
+    internal = (lambda t: tr[id(t)]) if (objs and isinstance(objs[0], float)) else (lambda t: tr[t])
+    order = [internal(t) for t in list(g._nodes.copy())]
     nbrs = [[] for _ in objs]
     for t, ns in g._neighbors.items():
-        nbrs[tr[t]] = [tr[x] for x in list(ns)]
+        nbrs[internal(t)] = [internal(x) for x in list(ns)]
     try:
         out = [[tr[key(o)] for o in c] for c in g.sccs(trivial)]
         err = None
@@ -114,7 +123,7 @@ def cases(ctx):
                 ctx.rng.shuffle(o)
                 orders.append(o)
             for order in orders[:1 if (n == 4 or ctx.quick() and n == 3) else 2]:
-                mode = ("int", "id", "eq")[(mask + n) % 3]
+                mode = ("int", "id", "eq", "nan")[(mask + n) % 4]
                 yield n, edges, order, mode, (mask % 5 == 0), frozenset(range(n)) if mask % 3 == 0 else frozenset()
     for _ in range(200 if ctx.quick() else 4000):
         n = ctx.rng.randint(2, 40)
@@ -122,7 +131,7 @@ def cases(ctx):
         edges = frozenset((a, b) for a in range(n) for b in range(n) if ctx.rng.random() < dens)
         order = list(range(n))
         ctx.rng.shuffle(order)
-        yield n, edges, order, ctx.rng.choice(["int", "id", "eq"]), ctx.rng.random() < 0.3, \
+        yield n, edges, order, ctx.rng.choice(["int", "id", "eq", "nan"]), ctx.rng.random() < 0.3, \
             frozenset(range(n)) if ctx.rng.random() < 0.4 else frozenset()
 
 
